@@ -511,6 +511,7 @@ func (e *endpoint) block(p *pendingBlock) {
 		}
 		var earlier *item
 		var earlierID uint32
+		w := map[string]interface{}{"stream": p.id, "received": short(got)}
 		for id, ot := range s.tr[d] {
 			for _, o := range ot.items {
 				if (o.kind == 'H' || o.kind == 'U') && o.recvSeq == 0 && o != it && o.blockSeq < my {
@@ -520,20 +521,32 @@ func (e *endpoint) block(p *pendingBlock) {
 				}
 			}
 		}
-		w := map[string]interface{}{"stream": p.id, "received": short(got)}
 		if derr != nil {
 			w["decode_error"] = derr.Error()
 		}
 		if it != nil {
 			w["sent"] = short(it.fields)
 		}
+		if earlier == nil && it != nil && it.kind == kind {
+			// or was this block itself overtaken by blocks the sender encoded after it?
+			for id, ot := range s.tr[d] {
+				for _, o := range ot.items {
+					if (o.kind == 'H' || o.kind == 'U') && o.recvSeq != 0 && o.blockSeq > my {
+						earlier, earlierID = it, p.id
+						w["overtaken_by_later_block_on_stream"] = id
+					}
+				}
+			}
+		}
 		if earlier != nil {
 			cls := "reordered-blocks"
-			if e.undelivered(earlierID) > 0 {
+			if e.undelivered(earlierID) > 0 || (earlier == it && t.dataSent > 0) {
 				cls = "headers-behind-blocked-data"
 			}
-			w["earlier_block_outstanding_on_stream"] = earlierID
-			s.find("hpack-order", cls, fmt.Sprintf("%s: %s block on stream %d does not decode to the sent field list under the receiver's HPACK state (err=%v); a header block the sender encoded earlier (stream %d) has not been delivered yet", e.name(), what, p.id, derr, earlierID), w)
+			if earlier != it {
+				w["earlier_block_outstanding_on_stream"] = earlierID
+			}
+			s.find("hpack-order", cls, fmt.Sprintf("%s: %s block on stream %d does not decode to the sent field list under the receiver's HPACK state (err=%v); header blocks reached the receiver in a different order than the sender encoded them (stream %d's block was held back)", e.name(), what, p.id, derr, earlierID), w)
 			return
 		}
 		cls := "unknown"
@@ -621,9 +634,6 @@ func (e *endpoint) writeWU(id uint32, inc uint32) {
 		e.connWU += int64(inc)
 	} else {
 		e.wu[id] += int64(inc)
-	}
-	if inc > e.maxIncSent {
-		e.maxIncSent = inc
 	}
 	e.grants = append(e.grants, s.tick())
 	s.bump()
